@@ -50,8 +50,10 @@ def gen_c12(r, n_blocks, deep=False):
         if c < (0.3 if deep and h > 10 else 0.1 if deep else 0.35) and h >= 1:
             kind = r.random()
             if deep and h > 10:
-                kind = r.choice([0.1, 0.1, 0.7, 0.8, 0.8, 0.8, 0.95])
-            if kind < 0.6:
+                kind = r.choice([0.1, 0.05, 0.05, 0.7, 0.8, 0.8, 0.95])
+            if kind < 0.06:
+                t = lo                                      # the oldest retained height (its journal must survive pruning)
+            elif kind < 0.6:
                 t = r.randrange(lo, h + 1)
             elif kind < 0.75:
                 t = h + r.randrange(1, 3)                  # higher than head: refused
@@ -108,7 +110,7 @@ def run(ctx):
             lc.decide(ctx, exe, "C12c", [group], MODE, known, keys=keys, nontrivial=nontrivial, expect=[expect])
             dist["corpus"] = dist.get("corpus", 0) + 1
         n = 170 if ctx.quick else 4000
-        nd = 12 if ctx.quick else 300
+        nd = 20 if ctx.quick else 400
         groups = [[gen_c12(r, r.randrange(2, 8))] for _ in range(n)]
         groups += [[gen_c12(r, r.randrange(11, 16), deep=True)] for _ in range(nd)]     # pruning window
         # rollbacks in an unstructured stream (odd commit heights, missing journals, refusals)
